@@ -5,7 +5,8 @@ ID = "C05"
 RULE = ("Generated tables (1-8 initial buckets, max 4-16, mmap backend max 16 or 512; allocator order/chunk/mmap; flags 0..3; flavor memb/mb/qsbr/bp; "
         "hash identity / all-collide / high-bits-only / small-collide; 1-4 keys) and 2-4 threads each issuing add, add_unique, add_replace, "
         "lookup, lookup+del, del of a named node, lookup+replace, duplicate walk, traversal, count_nodes, power-of-two resizes (each table operation "
-        "in its own read-side section), after an optional pre-population; removed nodes are reclaimed by their owner after a grace period. Oracle: "
+        "in its own read-side section), after an optional pre-population; one program in four is a count-driven lazy-shrink program (AUTO_RESIZE|ACCOUNTING, 8 buckets, 6-7 nodes, "
+        "then mostly removals, one possible cpu, so the node count falls through two shrink thresholds while the resize worker may lag); removed nodes are reclaimed by their owner after a grace period. Oracle: "
         "Wing-Gong linearizability search of the recorded call/return history (<=28 point operations) against the multiset-per-key specification; "
         "interval predicates for walks/traversals/count (superset of definitely-present, subset of possibly-present, no node twice); final traversal "
         "equals the contents the history determines; shadow heap. Non-trivial: two operations of different threads overlapped in time and at least "
@@ -13,6 +14,6 @@ RULE = ("Generated tables (1-8 initial buckets, max 4-16, mmap backend max 16 or
 ASSUMPTIONS = G.E1_ASSUMPTIONS + ["bounded: <=4 threads, <=7 ops per thread, <=28 point operations per history, <=64 nodes",
                                   "hooks: MIN_PARTITION_PER_THREAD_ORDER=1, COUNT_COMMIT_ORDER=1 so partitioned and counter-driven resizes occur on small tables"]
 EXAMPLES = {"quick": 150, "thorough": 3000}
-example = L.make_example("lin")
+example = L.make_example(["lin", "lin", "lin", "shrink"])
 judge = L.make_judge(lambda text, res: G.flag(res, 0))
 confirm = L.confirm
